@@ -67,6 +67,7 @@ func init() {
 			// a constructor that completed run again
 			k.PCallback, k.PCBPanic = 15, 40
 			k.Types = []string{"T0", "T1", "T2", "T3", "S0"}
+			k.PSide = 8 // bodies that call String / Visualize / Scope / Provide / Decorate on the container
 			return k
 		},
 		tweak: func(t *rapid.T, k *Knobs) {
@@ -100,6 +101,7 @@ func init() {
 			// (cycle-closing) registrations
 			k.NoFaults, k.PFault, k.PPanic = false, 4, 50
 			k.WCycleCloser = 1
+			k.PSide = 8 // bodies that call String / Visualize / Scope / Provide / Decorate on the container
 			return k
 		},
 		clauses: []string{CUserCodeOutsideInvoke, COutsideClosure, CMustRunMissing, CBadExec, CUnregisteredRan},
@@ -266,6 +268,7 @@ func init() {
 			k.MaxScopes = 5
 			k.MaxOps = 26
 			k.WCycleCloser = 1 // after a cycle-rejected registration the state must be intact
+			k.PSide = 8        // bodies that call String / Visualize / Scope / Provide / Decorate on the container
 			return k
 		},
 		clauses: []string{CVerdictDecorate, CExecTwice, CProvSingle, CGroupMultiset, CFromNowhere, CBadExec, CZeroRequired},
